@@ -357,3 +357,172 @@ Proof.
     + apply (TC_complete_by_worker c w t r s H Ek (Hbg d r eq_refl) HT).
   - right. apply TC_sync_return_err; [exact (proj1 H)|exact HT].
 Qed.
+
+(* ---- Execute ----------------------------------------------------------------------------------------------------------------------------------------------- *)
+Lemma TC_wait_execution_begin : forall c o s, TC [] [] s -> TC [] [] (wait_execution_begin c o s).
+Proof. intros. unfold wait_execution_begin, stream_iter. tc_go2. Qed.
+
+Lemma TC_newtask : forall s x, t_worker x = None -> TC [] [] s ->
+  TC [] [] (s <| s_ntasks ::= S |> <| s_tasks ::= fun l => l ++ [(s_ntasks s, x)] |>).
+Proof.
+  intros s x Hx [HSW [HKW [HID [HEC [HQP HNQ]]]]]. split; [eapply SW_frame'; [| | | |exact HSW]; reflexivity|].
+  split; [eapply KW_frame; [| |exact HKW]; reflexivity|]. split; [eapply IDs_frame; [| |exact HID]; reflexivity|].
+  split; [apply EC_newtask; assumption|]. split; [eapply QPs_frame; [|exact HQP]; reflexivity|eapply NQ_frame; [| |exact HNQ]; reflexivity].
+Qed.
+
+Lemma TC_exec_new : forall c a p s,
+  (fst (fst (fst (x_sel a))) < List.length (p_scs p))%nat -> In p (s_pqs s) ->
+  FI s -> TC [] [] s ->
+  let s1 := emit (OGhost GSelect) s in
+  TC [] [] (let '(idx, dur, timeout, l) := x_sel a in
+      let k := mkSK (p_key p) (nth idx (p_scs p) 0%N) in
+      let t := s_ntasks s1 in
+      let s := s1 <| s_ntasks ::= S |>
+                 <| s_tasks ::= fun ts => ts ++ [(t, mkTask [] (x_instance a) (x_digest a) (Some (x_dnc a)) timeout (s_now s1)
+                                                        (drop_prefix (pk_prefix (p_key p)) (x_instance a))
+                                                        None 0 dur (Some l) None 0)] |> in
+      let s := if x_dnc a then s else s <| s_inflight ::= aset dkey_eqb (x_instance a, x_digest a) t |> in
+      let s := get_or_create_invocation k (x_keys a) s in
+      let '(s, o) := new_operation t (x_prio a) (mkI k (x_keys a)) false s in
+      wait_execution_begin c o (schedule t s)).
+Proof.
+  intros c a p s Hidx Hp H HT s1. destruct (x_sel a) as [[[idx dur] timeout] l]. cbn [fst] in Hidx. cbv zeta.
+  assert (Hk : scq_exists s (mkSK (p_key p) (nth idx (p_scs p) 0%N)) = true).
+  { destruct (FI_Sp _ H) as [_ [_ S3]]. apply (S3 p); [exact Hp|apply nth_In; exact Hidx]. }
+  set (k := mkSK (p_key p) (nth idx (p_scs p) 0%N)) in *.
+  assert (Hroot : inv_exists s (mkI k []) = true) by (apply (root_exists _ _ (SW_St _ (FI_SW _ H))); exact Hk).
+  pose proof (W_task_fresh s (FI_W _ H)) as Hft. pose proof (W_op_fresh s (FI_W _ H)) as Hfo.
+  assert (H1 : TC [] [] s1) by (unfold s1; tc_go2).
+  set (t := s_ntasks s1).
+  set (x := mkTask [] (x_instance a) (x_digest a) (Some (x_dnc a)) timeout (s_now s1) (drop_prefix (pk_prefix (p_key p)) (x_instance a)) None 0 dur (Some l) None 0).
+  set (s2 := s1 <| s_ntasks ::= S |> <| s_tasks ::= fun ts => ts ++ [(t, x)] |>).
+  assert (H2 : TC [] [] s2) by (apply TC_newtask; [reflexivity|exact H1]).
+  assert (Hx : get_task s2 t = x) by (unfold s2, t; rewrite get_task_newtask; change (s_tasks s1) with (s_tasks s); change (s_ntasks s1) with (s_ntasks s); rewrite Hft, Nat.eqb_refl; reflexivity).
+  set (s3 := if x_dnc a then s2 else s2 <| s_inflight ::= aset dkey_eqb (x_instance a, x_digest a) t |>).
+  assert (H3 : TC [] [] s3 /\ get_task s3 t = x /\ s_invs s3 = s_invs s /\ s_ops s3 = s_ops s /\ s_nops s3 = s_nops s).
+  { unfold s3. destruct (x_dnc a); [split; [exact H2|split; [exact Hx|split; [reflexivity|split; reflexivity]]]|]. split; [tc_go2|split; [exact Hx|split; [reflexivity|split; reflexivity]]]. }
+  destruct H3 as [H3 [Hx3 [Ei3 [Eo3 En3]]]]. clearbody s3.
+  set (s4 := get_or_create_invocation k (x_keys a) s3).
+  assert (H4 : TC [] [] s4) by (apply TC_get_or_create_invocation; exact H3).
+  destruct (goc_frames k (x_keys a) s3) as [G1 [G2 _]]. destruct (get_or_create_invocation_tasks k (x_keys a) s3) as [_ [G3 _]]. fold s4 in G1, G2, G3.
+  assert (Hae4 : anc_exist s4 (mkI k (x_keys a))) by (apply goc_anc_exist; unfold inv_exists in *; rewrite Ei3; exact Hroot).
+  unfold new_operation. cbv iota beta.
+  match goal with |- TC [] [] (wait_execution_begin c ?o (schedule t ?e)) => set (s5 := e); set (o5 := o) end.
+  assert (Et5 : get_task s5 t = x <| t_ops := [(mkI k (x_keys a), o5)] |>).
+  { unfold s5. rewrite get_task_upd_task, Nat.eqb_refl. rewrite (get_task_frame s4) by reflexivity. rewrite (get_task_frame _ _ _ G1), Hx3. reflexivity. }
+  assert (H5 : TC [] [] s5).
+  { destruct H4 as [HSW [HKW [HID [HEC [HQP HNQ]]]]]. unfold s5.
+    split; [eapply SW_frame'; [| | | |exact HSW]; reflexivity|]. split; [eapply KW_frame; [| |exact HKW]; reflexivity|].
+    split; [eapply IDs_frame; [| |exact HID]; reflexivity|]. split; [|split; [eapply QPs_frame; [|exact HQP]; reflexivity|eapply NQ_frame; [| |exact HNQ]; reflexivity]].
+    apply EC_upd_task; [|eapply EC_frame; [| |exact HEC]; reflexivity]. right. left.
+    rewrite (get_task_frame s4) by reflexivity. rewrite (get_task_frame _ _ _ G1), Hx3. reflexivity. }
+  assert (Eop5 : get_op s5 o5 = mkOper t (x_prio a) (mkI k (x_keys a)) 0 false None).
+  { unfold s5, o5. rewrite (get_op_frame (s4 <| s_nops ::= S |> <| s_ops ::= fun l0 => l0 ++ [(s_nops s4, mkOper t (x_prio a) (mkI k (x_keys a)) 0 false None)] |>)) by reflexivity.
+    rewrite get_op_newop. rewrite G2, Eo3, G3, En3, Hfo, Nat.eqb_refl. reflexivity. }
+  apply TC_wait_execution_begin. apply (TC_schedule [] t s5 k); [|exact H5].
+  intros i o Hin. rewrite Et5 in Hin. cbn in Hin. destruct Hin as [E|[]]. inversion E; subst i o.
+  split; [|split; [rewrite Eop5; reflexivity|reflexivity]].
+  apply (anc_exist_mono s4); [intros a0 Ha0; exact Ha0|exact Hae4].
+Qed.
+
+Lemma goc_scqs : forall k p s, s_scqs (get_or_create_invocation k p s) = s_scqs s.
+Proof.
+  intros k p s. unfold get_or_create_invocation. apply (fold_left_pres (fun s' => s_scqs s' = s_scqs s)); [|reflexivity].
+  intros a pp Ha. destruct (inv_exists a (mkI k pp)); exact Ha.
+Qed.
+
+Lemma Pan_exec_start : forall c a s, Pan s -> Pan (exec_start c a s).
+Proof. intros c a s H. unfold exec_start, new_operation, wait_execution_begin, stream_iter, ret. inv_go fail t_pan. Qed.
+
+Lemma cnto_app : forall a ops i o, cnto a (ops ++ [(i, o)]) = (cnto a ops + (if inb a (chain i) then 1 else 0))%nat.
+Proof.
+  intros a ops i o. unfold cnto, flen. rewrite filter_app, app_length. cbn [filter fst]. destruct (inb a (chain i)); cbn; lia.
+Qed.
+
+Lemma TCP_exec_dedup : forall c a t0 s,
+  aget dkey_eqb (x_instance a, x_digest a) (s_inflight s) = Some t0 ->
+  FI s -> TNP [] s -> Inf s -> TC [] [] s -> TCP (exec_start c a s).
+Proof.
+  intros c a t0 s Ei H HT HI HTC.
+  destruct (FI_NX _ H) as [HXS [HTK HCM]].
+  destruct HCM as [Hp|[HC HM]]; [left; apply Pan_exec_start; exact Hp|]. destruct HT as [Hp|HTN]; [left; apply Pan_exec_start; exact Hp|right].
+  unfold exec_start. rewrite Ei. cbv zeta.
+  pose proof (XS_X _ _ HXS) as HX. pose proof (SW_St _ (FI_SW _ H)) as HSt.
+  destruct HI as [_ [I2 _]]. destruct (I2 _ _ Ei) as [x [Ex [[Hr Hd] _]]].
+  assert (Eg : get_task s t0 = x) by (unfold get_task; rewrite Ex; reflexivity).
+  assert (Hne : t_ops (get_task s t0) <> []) by (apply (proj2 (HTN t0)); [intros []|rewrite Eg, Hd; discriminate]).
+  set (s1 := emit (OGhost GSelAbandoned) s).
+  change (task_scq s1 t0) with (task_scq s t0). set (k := task_scq s t0).
+  assert (Hsk : forall i' o', In (i', o') (t_ops (get_task s t0)) -> i_sk i' = k).
+  { intros i' o' Hin. unfold k. symmetry. eapply task_scq_first; [exact HTK|exact Hin]. }
+  (* the size class queue of the task exists; if the task is queued nobody waits there *)
+  assert (Hk : scq_exists s k = true /\
+               (t_worker (get_task s t0) = None -> forall w, worker_exists s w = true -> k_wait (get_worker s w) = true -> w_sk w <> k)).
+  { destruct (t_ops (get_task s t0)) as [|[i0 o0] l0] eqn:Eo; [congruence|].
+    assert (Hin : In (i0, o0) (t_ops (get_task s t0))) by (rewrite Eo; left; reflexivity).
+    assert (Ek : i_sk i0 = k) by (apply (Hsk i0 o0); left; reflexivity).
+    destruct (XO2 _ _ HX t0 i0 o0 (fun F => F) Hin) as [Ha [Ht Hi]].
+    destruct (t_worker (get_task s t0)) as [w|] eqn:Ew.
+    - split; [|discriminate]. destruct (XA _ _ HX t0 w (fun F => F) Ew) as [_ [He _]]. destruct (HTK t0) as [_ [K2 _]].
+      rewrite <- Ek, (K2 w i0 o0 Ew Hin). apply worker_exists_scq. exact He.
+    - assert (Hq : queued s o0) by (apply HC; [exact Ha|intros []|unfold idle_live; rewrite Ht, Ew, Eg; auto]).
+      unfold queued in Hq. rewrite Hi in Hq.
+      assert (Hex0 : inv_exists s i0 = true) by (unfold inv_exists; unfold get_inv in Hq; destruct (aget iref_eqb i0 (s_invs s)); [reflexivity|destruct Hq]).
+      split; [rewrite <- Ek; apply (HM i0 (get_inv s i0)); apply inv_exists_in; exact Hex0|].
+      intros _ w He Hw Esk. destruct HTC as [_ [_ [_ [_ [_ HNQ]]]]]. specialize (HNQ w He Hw).
+      assert (Hqr : is_queued s (mkI (w_sk w) []) = true); [|congruence].
+      apply is_queued_iff. exists i0, (get_inv s i0). split; [apply inv_exists_in; exact Hex0|]. split; [|intro E; rewrite E in Hq; destruct Hq].
+      rewrite Esk, <- Ek. apply in_chain_root. }
+  destruct Hk as [Hse Hnw].
+  assert (Hroot : inv_exists s (mkI k []) = true) by (apply (root_exists _ _ HSt); exact Hse).
+  assert (H1 : TC [] [] s1) by (unfold s1; tc_go2).
+  set (s2 := get_or_create_invocation k (x_keys a) s1).
+  assert (H2 : TC [] [] s2) by (apply TC_get_or_create_invocation; exact H1).
+  destruct (goc_frames k (x_keys a) s1) as [G1 [G2 _]]. destruct (get_or_create_invocation_tasks k (x_keys a) s1) as [_ [G3 _]]. fold s2 in G1, G2, G3.
+  assert (Hae2 : anc_exist s2 (mkI k (x_keys a))) by (apply goc_anc_exist; exact Hroot).
+  assert (Et2 : get_task s2 t0 = get_task s t0) by (rewrite (get_task_frame _ _ _ G1); reflexivity).
+  destruct (aget iref_eqb (mkI k (x_keys a)) (t_ops (get_task s2 t0))) as [o|]; [apply TC_wait_execution_begin; exact H2|].
+  set (i := mkI k (x_keys a)) in *. set (o := s_nops s2).
+  pose proof (W_op_fresh s (FI_W _ H)) as Hfo.
+  unfold new_operation. cbv iota beta. fold o.
+  match goal with |- TC [] [] (wait_execution_begin c o (match task_stage (get_task ?e t0) with _ => _ end)) => set (s3 := e) end.
+  assert (Et3 : get_task s3 t0 = (get_task s t0) <| t_ops ::= fun l => l ++ [(i, o)] |>).
+  { unfold s3. rewrite get_task_upd_task, Nat.eqb_refl. rewrite (get_task_frame s2) by reflexivity. rewrite Et2. reflexivity. }
+  assert (Eop3 : get_op s3 o = mkOper t0 (x_prio a) i 0 false None).
+  { unfold s3, o. rewrite (get_op_frame (s2 <| s_nops ::= S |> <| s_ops ::= fun l0 => l0 ++ [(s_nops s2, mkOper t0 (x_prio a) i 0 false None)] |>)) by reflexivity.
+    rewrite get_op_newop. rewrite G2, G3. change (s_ops s1) with (s_ops s). change (s_nops s1) with (s_nops s). rewrite Hfo, Nat.eqb_refl. reflexivity. }
+  assert (H3 : TC [] [t0] s3).
+  { apply TC_weaken with (t := t0) in H2. destruct H2 as [HSW [HKW [HID [HEC [HQP HNQ]]]]]. unfold s3.
+    split; [eapply SW_frame'; [| | | |exact HSW]; reflexivity|]. split; [eapply KW_frame; [| |exact HKW]; reflexivity|].
+    split; [eapply IDs_frame; [| |exact HID]; reflexivity|]. split; [|split; [eapply QPs_frame; [|exact HQP]; reflexivity|eapply NQ_frame; [| |exact HNQ]; reflexivity]].
+    apply EC_upd_task; [left; left; reflexivity|eapply EC_frame; [| |exact HEC]; reflexivity]. }
+  assert (Ei3 : forall a0, inv_exists s3 a0 = inv_exists s2 a0) by (intro; reflexivity).
+  apply TC_wait_execution_begin. unfold task_stage. rewrite Et3. cbn [t_resp t_worker set]. rewrite Eg, Hr. rewrite <- Eg.
+  destruct (t_worker (get_task s t0)) as [w|] eqn:Ew; cbv iota.
+  - (* the task is executing: the new operation is counted *)
+    pose proof (TC_increment_executing [] [t0] i w s3 H3) as H4. destruct H4 as [A [B [C [D E]]]].
+    split; [exact A|]. split; [exact B|]. split; [exact C|]. split; [|exact E].
+    intros a0 t' w' _ Ht'. destruct (Nat.eq_dec t' t0) as [->|Hne']; [|apply D; [intros [E1|[]]; congruence|exact Ht']].
+    assert (Et4 : get_task (increment_executing i w s3) t0 = get_task s3 t0).
+    { apply get_task_frame. unfold increment_executing. apply (fold_left_pres (fun s' => s_tasks s' = s_tasks s3)); [|reflexivity].
+      intros a' j Ha'. rewrite upd_inv_eq. exact Ha'. }
+    rewrite Et4, Et3 in Ht' |- *. cbn [t_worker t_ops set] in Ht' |- *. assert (w' = w) by congruence. subst w'.
+    rewrite cnto_app, ecount_increment, wref_eqb_refl. cbn [andb].
+    destruct HTC as [_ [_ [_ [HEC0 _]]]]. specialize (HEC0 a0 t0 w (fun F => F) Ew).
+    assert (Ec3 : ecount s3 a0 w = ecount s a0 w).
+    { unfold ecount. rewrite (get_inv_frame s2 s3) by reflexivity. unfold s2.
+      (* new invocations have no executing workers *)
+      assert (Hg : forall l s0, v_exec (get_inv (fold_left (fun s pp => if inv_exists s (mkI k pp) then s else s <| s_invs ::= fun l => l ++ [(mkI k pp, new_inv (s_now s))] |>) l s0) a0) = v_exec (get_inv s0 a0)).
+      { induction l as [|pp l IH]; intro s0; cbn [fold_left]; [reflexivity|]. rewrite IH. destruct (inv_exists s0 (mkI k pp)); [reflexivity|].
+        unfold get_inv. cbn. rewrite (aget_app iref_eqb). destruct (aget iref_eqb a0 (s_invs s0)); [reflexivity|]. cbn. destruct (iref_eqb a0 (mkI k pp)); reflexivity. }
+      unfold get_or_create_invocation. rewrite Hg. reflexivity. }
+    rewrite Ec3. destruct (inb a0 (chain i)) eqn:Ein; cbn [andb]; [|lia]. apply inb_In in Ein. rewrite Ei3, (Hae2 a0 Ein). lia.
+  - (* the task is queued: so is the new operation *)
+    apply (TC_drop [] [] t0); [|].
+    + destruct (enqueue_reads o s3) as [_ [E2 _]]. rewrite (get_task_frame _ _ _ E2), Et3. cbn. exact Ew.
+    + apply TC_enqueue; [|exact H3]. rewrite Eop3. cbn [o_inv]. intros _. split.
+      * intros a0 Ha0. rewrite Ei3. exact (Hae2 a0 Ha0).
+      * intros w He Hw. cbn [i_sk i]. apply (Hnw eq_refl w); [|].
+        -- rewrite <- He. symmetry. apply worker_exists_frame. unfold s3. rewrite upd_task_eq. cbn. unfold s2. rewrite goc_scqs. reflexivity.
+        -- rewrite <- Hw. f_equal. symmetry. apply get_worker_frame'. unfold s3. rewrite upd_task_eq. cbn. unfold s2. rewrite goc_scqs. reflexivity.
+Qed.
